@@ -1,7 +1,7 @@
 (* pins for C07: statements of the property theorems as of the time of pinning *)
 From Coq Require Import NArith ZArith List Bool Arith.
 From Blue Require Import Cursor.Iface Cursor.Ref Cursor.Bounds Cursor.Pruning Cursor.Spec Cursor.Proofs_Ref Cursor.Proofs_Spec
-  Snap.Model Snap.ProofsSafe Snap.ProofsLeaf Snap.ProofsGrow Snap.ProofsScan Snap.ProofsSpec Snap.ProofsStable.
+  Snap.Model Snap.ProofsSafe Snap.ProofsLeaf Snap.ProofsGrow Snap.ProofsScan Snap.ProofsSpec Snap.ProofsStable Snap.ProofsLTG.
 Import ListNotations.
 Local Open Scope N_scope.
 From Blue Require Import Snap.Props_C07.
@@ -12,5 +12,6 @@ Check C07_scan_list_is_the_contents : forall lo hi t ls v, scan_wf lo hi ls v ->
 Check C07_open_hypotheses_checkable : forall c s lo hi, open_wfb c s lo hi = true -> scan_wf lo hi (map (look_of s) (open_mems s)) (cur_levels s) /\ distinct (all_entries (map (look_of s) (open_mems s)) (cur_levels s)) /\ (total_size (map (look_of s) (open_mems s)) (cur_levels s) + 2 <= cf_fuel c)%nat.
 Check C07_cursor_keeps_scan_open_contents : forall c seq es1 cid lo hi es2, cf_iter_owns c = true -> cf_holds_ver c = true -> let s1 := fst (mrun c (minit seq) es1) in find_scan s1 cid = None -> open_wfb c s1 lo hi = true -> quietb cid true es2 = true -> Forall no_err (snd (mrun c s1 (EOpen cid lo hi :: es2))) -> cursor_trace cid (EOpen cid lo hi :: es2) (snd (mrun c s1 (EOpen cid lo hi :: es2))) = ref_trace (scan_spec s1 lo hi) (-1) cid es2.
 Check C07_pruning_screens_late_writes : forall fuel t l0 evs, good_list fuel t l0 l0 -> good_evs fuel t l0 l0 evs -> grun fuel t (p_new gfix (g_new l0)) evs = gref (prune_spec t l0) (-1) evs.
+Check C07_cursor_snapshot_stable : forall c seq es1 cid lo hi es2, cf_iter_owns c = true -> cf_holds_ver c = true -> let s1 := fst (mrun c (minit seq) es1) in find_scan s1 cid = None -> open_wfb c s1 lo hi = true -> open_tsb s1 = true -> forallb (held_ok cid) es2 = true -> fuel_enoughb c s1 es2 = true -> Forall no_err (snd (mrun c s1 (EOpen cid lo hi :: es2))) -> cursor_trace cid (EOpen cid lo hi :: es2) (snd (mrun c s1 (EOpen cid lo hi :: es2))) = ref_trace (scan_spec s1 lo hi) (-1) cid es2.
 Check C07_uaf_refuted_without_iterator_ownership : exists es, In (OErr UAF) (snd (mrun (mkCfg false true false 50) (minit 2) es)).
 Check C07_enoent_refuted_without_version_hold : exists es, In (OErr ENOENT) (snd (mrun (mkCfg true false false 50) (minit 2) es)).
